@@ -90,8 +90,14 @@ StreamsManagerBase<MAX_STREAMS> {
         self.used_streams_count.fetch_add(1, Relaxed);
         let stream_id = match self.vacant_streams.consume_movable() {
             Some(stream_id) => stream_id,
-            None => panic!("StreamsManager: '{}' has a MAX_STREAMS of {MAX_STREAMS} -- which just got exhausted: stats: {} streams were created; {} dropped. Please, increase the limit or fix the LOGIC BUG!",
-                           self.streams_manager_name, self.created_streams_count.load(Relaxed), self.finished_streams_count.load(Relaxed)),
+            None => {
+                // no stream was created: take back what was counted above, so `running_streams_count()` keeps telling the truth
+                // for whoever survives this panic (other tasks; a caller that catches it)
+                self.created_streams_count.fetch_sub(1, Relaxed);
+                self.used_streams_count.fetch_sub(1, Relaxed);
+                panic!("StreamsManager: '{}' has a MAX_STREAMS of {MAX_STREAMS} -- which just got exhausted: stats: {} streams were created; {} dropped. Please, increase the limit or fix the LOGIC BUG!",
+                       self.streams_manager_name, self.created_streams_count.load(Relaxed), self.finished_streams_count.load(Relaxed))
+            },
         };
         let keep_streams_running = unsafe { &mut * self.keep_streams_running.get() };
         #[cfg(feature = "verif")]
